@@ -27,6 +27,69 @@ def make_single_file(dest, args, repo):
     return dest
 
 
+LINK_PROBE_A = r"""
+%(inc)s
+#include <cstdio>
+#include <limits>
+#include <sstream>
+#include <string>
+using namespace au;
+int probe_b(char *buf, int n);
+// binding a reference ODR-uses a static data member: under C++14 that needs its out-of-class definition
+template <class T> static const T &odr(const T &x) { return x; }
+int main() {
+    volatile int i = 0;
+    std::ostringstream o;
+    o << &unit_label(Meters{})[i] << '|' << &unit_label(Kilo<Meters>{})[i] << '|' << &unit_label(Meters{} * mag<3>())[i] << '|'
+      << &unit_label(Meters{} / mag<7>())[i] << '|' << &unit_label(squared(Meters{}) / Seconds{})[i] << '|'
+      << &unit_label(CommonUnitT<decltype(Meters{} / mag<1250>()), decltype(Feet{} / mag<381>())>{})[i] << '|'
+      << &unit_label(CommonPointUnitT<Celsius, Kelvins>{})[i] << '|' << &unit_label(AssociatedUnitT<decltype(SPEED_OF_LIGHT)>{})[i] << '|'
+      << &mag_label(mag<5>() / mag<7>())[i] << '|' << &unit_label(Mebi<Bytes>{} * Fahrenheit{})[i] << '|'
+      << odr(std::numeric_limits<QuantityI32<Meters>>::digits) << '|' << odr(std::numeric_limits<QuantityD<Feet>>::max_exponent) << '|'
+      << odr(std::numeric_limits<QuantityD<Feet>>::is_signed) << '|' << odr(detail::FirstPrimes::values)[3 + i] << '|'
+      << (meters(1) + feet(1)) << '|' << (celsius_pt(20) - kelvins_pt(290)) << '|' << meters_pt(3.5) << '|' << SPEED_OF_LIGHT.as<int>(meters / second) << '|'
+      << (int8_t{65} * meters(int8_t{1})) << '|' << as_quantity(std::chrono::milliseconds(5));
+    char buf[256];
+    int n = probe_b(buf, 256);
+    std::printf("%%s|%%.*s\n", o.str().c_str(), n, buf);
+    return 0;
+}
+"""
+LINK_PROBE_B = r"""
+%(inc)s
+#include <cstdio>
+using namespace au;
+// a second translation unit that includes the same header(s) and uses the same entities: multiple-definition / ODR problems show at link time
+int probe_b(char *buf, int n) {
+    volatile int i = 0;
+    return std::snprintf(buf, n, "%%s %%s %%d", &unit_label(Meters{})[i], &unit_label(CommonUnitT<decltype(Meters{} / mag<1250>()), decltype(Feet{} / mag<381>())>{})[i],
+                         (int)(feet(3) + inches(2)).in(inches));
+}
+"""
+
+
+def link_probe(workdir, cfg, cxx, std, inc_dirs, includes):
+    """compile two translation units at -O0, link them, run: returns (accepted, output or error text)"""
+    d = os.path.join(workdir, "link_" + cfg)
+    os.makedirs(d, exist_ok=True)
+    for nm, src in (("a", LINK_PROBE_A), ("b", LINK_PROBE_B)):
+        with open(os.path.join(d, nm + ".cc"), "w") as f:
+            f.write(src % {"inc": includes})
+    exe = os.path.join(d, "probe")
+    cmd = [cxx, "-std=" + std, "-O0", "-w"] + ["-I" + x for x in inc_dirs] + [os.path.join(d, "a.cc"), os.path.join(d, "b.cc"), "-o", exe]
+    try:
+        p = subprocess.run(cmd, stdout=subprocess.PIPE, stderr=subprocess.PIPE, universal_newlines=True, timeout=600)
+        if p.returncode != 0:
+            errs = [l for l in p.stderr.splitlines() if "error" in l or "undefined reference" in l or "multiple definition" in l]
+            return False, " ; ".join(errs[:3])[:600] or p.stderr[-400:]
+        r = subprocess.run([exe], stdout=subprocess.PIPE, stderr=subprocess.PIPE, universal_newlines=True, timeout=60)
+        if r.returncode != 0:
+            return False, "probe exited with %d: %s" % (r.returncode, r.stderr[-200:])
+        return True, r.stdout.strip()
+    except subprocess.TimeoutExpired:
+        return False, "timed out"
+
+
 class C20(F.Check):
     pid = "C20"
     level = "translation_validation"
@@ -40,7 +103,8 @@ class C20(F.Check):
         "compiler parity is additionally observed on closed facts (magnitude values incl. roots and pi in float/double/long double, a label size, policy booleans): the constant in "
         "clang's IR must equal the value the g++ build returns; this needs no free variable and no sampling",
         "'every public header compiles on its own' and 'the single-file header can be included twice / with no other Au file' are compiler verdicts: observed as lowering-stage facts on the current tree "
-        "(a failure is reported as a lowering-stage VIOLATION), not solver results; *_fwd.hh/definition agreement and accept/reject parity across compilers are outside",
+        "(a failure is reported as a lowering-stage VIOLATION), not solver results; the same holds for the link probes (two translation units that ODR-use labels and numeric_limits "
+        "members and stream quantities, built at -O0 by g++ and clang++ at c++14/17/20 against the multi-header tree and the single-file header: all must link, run and print the same text)",
     ]
 
     def bounds(self):
@@ -71,6 +135,21 @@ class C20(F.Check):
             make_single_file(subdir, ["--units"] + pick + ["--constants", "speed_of_light"], repo)
             meters_only_variants.append(("subset", "c++14", {"id": "subset", "includes": single_inc, "inc_dirs": [subdir]}))
             variants.append(("twice", "c++14", {"id": "twice", "includes": single_inc + "\n" + single_inc, "inc_dirs": [sdir]}))
+        # link probes: two translation units using labels, numeric_limits members, streaming (ODR-uses of static data members), compiled at -O0,
+        # linked and run under both compilers, every -std, multi-header tree and single-file header
+        multi_inc = "\n".join('#include "%s"' % h for h in ("au/au.hh", "au/io.hh", "au/units/meters.hh", "au/units/feet.hh", "au/units/inches.hh", "au/units/seconds.hh",
+                                                             "au/units/celsius.hh", "au/units/kelvins.hh", "au/units/fahrenheit.hh", "au/units/bytes.hh",
+                                                             "au/constants/speed_of_light.hh")) + "\n#include <chrono>"
+        jobs = []
+        for cxx, cname in ((F.CLANG, "clang"), (F.GXX, "gcc")):
+            for std in ("c++14", "c++17", "c++20"):
+                jobs.append(("%s_%s_multi" % (cname, std.replace("+", "x")), cxx, std, [F.INC], multi_inc))
+                if self.tier == "thorough" or (cname, std) in (("clang", "c++14"), ("gcc", "c++14"), ("gcc", "c++20")):
+                    jobs.append(("%s_%s_single" % (cname, std.replace("+", "x")), cxx, std, [sdir], single_inc + "\n#include <chrono>"))
+        import concurrent.futures as cf
+        with cf.ThreadPoolExecutor(min(len(jobs), F.NCPU)) as ex:
+            res = list(ex.map(lambda j: link_probe(self.workdir, *j), jobs))
+        self.link_results = [(j[0], ok, out) for j, (ok, out) in zip(jobs, res)]
         ks = []
         self.pairs = []
         for d in donors:
@@ -232,6 +311,14 @@ class C20(F.Check):
                       routes=F.FP_ROUTES if fp else ["z3-bv", "cvc5-bvint", "z3-int"],
                       note="same result bits and same trap condition as the c++14 multi-header baseline, for all inputs")
             obs.append(ob)
+        base_out = next((out for cfg, ok, out in self.link_results if ok), None)
+        for cfg, ok, out in self.link_results:
+            def lfn(K, ok=ok, out=out, base_out=base_out):
+                return T.TRUE, T.const_bool(bool(ok) and out == base_out)
+            obs.append(F.Ob("link_probe:" + cfg, [], lfn, kind="closed",
+                            key={"configuration": cfg, "accepted": ok, "output": out[:300], "expected_output": (base_out or "")[:300]},
+                            note="a two-translation-unit program that ODR-uses labels / numeric_limits members and streams quantities compiles at -O0, links, "
+                                 "runs, and prints the same text in every compiler / -std / packaging configuration (compiler+linker verdict, observed)"))
         for ka, kr, vid in self.own_pairs:
             if K[ka.name].kernel.dropped or K[kr.name].kernel.dropped:
                 if bool(K[ka.name].kernel.dropped) != bool(K[kr.name].kernel.dropped):
